@@ -1781,8 +1781,11 @@ class ECDHCipherText(CipherText):
         # unwrap and unpad m
         _m = aes_key_unwrap(z, self.c, default_backend())
 
-        padder = PKCS7(64).unpadder()
-        return padder.update(_m) + padder.finalize()
+        # RFC 6637 section 8: the sender may pad up to a fixed 40 octets, so the padding can be longer than 8 octets
+        padlen = _m[-1]
+        if not 0 < padlen <= len(_m) or any(b != padlen for b in bytearray(_m[-padlen:])):
+            raise PGPDecryptionError("ECDH decryption failed")
+        return _m[:-padlen]
 
     def __init__(self):
         super(ECDHCipherText, self).__init__()
